@@ -250,14 +250,35 @@ def emit_cif(atoms: List[dict], null: str = "?", extra_categories: str = "", lab
             return str(len(chain_order) + 1)
         return str(chain_order.index(a["chain"]) + 1)
 
+    numbers = (dialect or {}).get("numbers")
+    row_no = 0
+
+    def num(text, col):
+        """the same number in another spelling the CIF grammar allows (dialect 'numbers': an integer phase): decimal
+        exponent in either case, an explicit plus sign, further zeros - the value is the one `text` denotes"""
+        if numbers is None:
+            return text
+        how = (row_no + col + numbers) % 5
+        v = float(text)
+        if how == 1 and abs(v) < 10000:
+            return f"{v:.6e}"
+        if how == 2 and abs(v) < 10000:
+            return f"{v:.6E}".replace("E+0", "E").replace("E-0", "E-")
+        if how == 3 and not text.startswith("-"):
+            return "+" + text
+        if how == 4:
+            return text + "00"
+        return text
+
     for a in atoms:
         is_ligand = (a["chain"], a["resseq"], a["icode"]) in ligands
         vals = [
             "HETATM" if is_ligand else a["record"], str(a["serial"]), a["element"] or null, lab_atom(a["name"]), a["altloc"] or null, lab_comp(a["resname"]), a["chain"], entity(a),
             "." if is_ligand else str(seq[(a["chain"], a["resseq"], a["icode"])]), a["icode"] or null,
-            f"{a['x']:.3f}", f"{a['y']:.3f}", f"{a['z']:.3f}", (f"{a['occ']:.2f}" if a["occ"] is not None else null), f"{a['bfac']:.2f}",
+            num(f"{a['x']:.3f}", 0), num(f"{a['y']:.3f}", 1), num(f"{a['z']:.3f}", 2), (num(f"{a['occ']:.2f}", 3) if a["occ"] is not None else null), f"{a['bfac']:.2f}",
             (str(a["charge"]) if a["charge"] else null), str(a["resseq"]), a["resname"], a["chain"], a["name"], str(a["model"]),
         ]
+        row_no += 1
         vals = [vals[k] for k in pos]
         toks = []
         for v in vals:
